@@ -652,6 +652,8 @@ class FunctionParser(BaseParser):
                 continue
             if field.is_required(options=context.options):
                 context.handle_error(exc.AbsenceError(item=field.attname))
+                # reported here: it is not looked for (and reported once more) among the keyword arguments
+                parsed_keys.append(field.attname)
                 continue
             default = field.get_default(context.options)
             if not unprovided(default):
